@@ -303,3 +303,36 @@ func (s *DisabledExp) resolveRefs(self, siblings map[string]*ResolvedBinding,
 	}
 	return s.makeDisabledExp(disable, inner)
 }
+
+// A conditionally disabled collection can be the source of a map call.  The
+// call has the forks of the value unless the value is disabled, in which case
+// it has none.  Which of the two it is is not known until run time.
+
+// CallMode Returns the call mode for a call which depends on this source.
+func (s *DisabledExp) CallMode() CallMode {
+	if src, ok := enabledValue(s).(MapCallSource); ok {
+		return src.CallMode()
+	}
+	return ModeUnknownMapCall
+}
+
+// KnownLength returns true if the source is an array with a known length
+// or is a map with a known set of keys.
+func (s *DisabledExp) KnownLength() bool {
+	return false
+}
+
+// If KnownLength is true and CallMode is ModeArrayCall, ArrayLength returns
+// the length of the array referred to by this source.  Otherwise it will
+// return -1.
+func (s *DisabledExp) ArrayLength() int {
+	return -1
+}
+
+// If KnownLength is true and CallMode is ModeMapCall, MapKeys will return
+// a map[string]Exp with the same keys which any call mapping over this
+// source would have.  The values are arbitrary.  Otherwise, it will return
+// nil.
+func (s *DisabledExp) Keys() map[string]Exp {
+	return nil
+}
